@@ -205,7 +205,7 @@ _WS = [" ", "\t", "\n", "\xa0", "  ", "\n    ", " \n", "\t "]
 _ATOMS = _WS + ["w", "é", "<", "&", "x y", ">", "]]>", "\"", "'", "\U0001F600", "&amp;", "a.b", " ", "0"]
 _text = st.lists(st.sampled_from(_ATOMS), max_size=6).map("".join)
 _ws_only = st.lists(st.sampled_from(_WS), min_size=1, max_size=3).map("".join)
-_attr_text = st.lists(st.sampled_from([" ", "\xa0", "  ", "w", "é", "<", "&", "x y", ">", "\"", "'", "\U0001F600", "v"]),
+_attr_text = st.lists(st.sampled_from([" ", "\xa0", "  ", "w", "é", "<", "&", "x y", ">", "\"", "'", "\U0001F600", "v", "\t", "\n", "\r", "a\nb"]),
                       max_size=5).map("".join)
 URIS = ["urn:1", "urn:2", "urn:3", "http://x.org/y?a=1&b=2"]
 
